@@ -154,6 +154,7 @@ pub fn run(ctx: &mut Ctx) {
         }
     }
     ctx.exhaustive.insert("all ordered pairs of documents with <=3 nodes".into(), !ctx.miri);
+    let mon = super::routes::Monitor::new(&["compare"]);
     let n = ctx.budget(500_000, 10_000_000);
     for i in 0..n {
         if !ctx.next_case() {
@@ -162,6 +163,10 @@ pub fn run(ctx: &mut Ctx) {
         let mut rng = ctx.rng.fork();
         let (a, b) = pair(&mut rng, if i % 3 == 0 { &gen::DOC_DEFAULT } else { &gen::DOC_SMALL });
         check_pair(ctx, &a, &b);
+        if i % 4 == 1 && a.nodes() < 300 && b.nodes() < 300 {
+            let args = super::routes::plain_args(&a, &mut rng);
+            mon.check(ctx, &a, &b, &args, &mut rng);
+        }
         ctx.sample(|| format!("compare({}, {}) = {:?}", a.show(), b.show(), refops::compare(&a, &b)));
         if i % 16 == 0 {
             let docs = batch(&mut rng, 48);
